@@ -49,16 +49,20 @@ def main():
             env = dict(os.environ, VT_REPO=dst,
                        VT_EVIDENCE_DIR=os.path.join(d, 'evidence'),
                        VT_REPLAY_DIR=os.path.join(d, 'replays'))
-            c = sh([os.path.join(VERIF, 'vcheck'), m['breaks_property'],
-                    args.tier], env=env)
-            mech = [ln.strip()[11:] for ln in c.stdout.splitlines()
-                    if ln.strip().startswith('mechanism:')]
-            verdict = {0: 'MISSED', 1: 'caught', 2: 'INCONCLUSIVE'}.get(
-                c.returncode, 'rc=%d' % c.returncode)
-            rows.append((m['id'], m['breaks_property'], verdict,
-                         mech[0] if mech else ''))
-            print('%-14s %s %-12s %s' % (m['id'], m['breaks_property'], verdict,
-                                         mech[:1]))
+            verdict, mech, prop = 'MISSED', [], m['breaks_property']
+            # a change may break several properties: one report is enough
+            for p in m.get('breaks_properties', [m['breaks_property']]):
+                c = sh([os.path.join(VERIF, 'vcheck'), p, args.tier], env=env)
+                v = {0: 'MISSED', 1: 'caught', 2: 'INCONCLUSIVE'}.get(
+                    c.returncode, 'rc=%d' % c.returncode)
+                if v == 'caught' or verdict == 'MISSED':
+                    verdict, prop = v, p
+                    mech = [ln.strip()[11:] for ln in c.stdout.splitlines()
+                            if ln.strip().startswith('mechanism:')]
+                if v == 'caught':
+                    break
+            rows.append((m['id'], prop, verdict, mech[0] if mech else ''))
+            print('%-14s %s %-12s %s' % (m['id'], prop, verdict, mech[:1]))
         finally:
             shutil.rmtree(d, ignore_errors=True)
     if args.write:
